@@ -1557,11 +1557,19 @@ def grd6(P, R, L, rule="GRD-6"):
     R.check(rule, READ_RECORD + "|error-kind-examined-before-any-exit", bool(phys_sites) and bool(kind_sw) and not early, where(b),
             "from the Err edge of read_physical_record no return is reachable without passing the ErrorKind test (other than for a non-I/O error): "
             "a torn tail is end-of-log for the manifest reader too", "; ".join(early) or "kind tests at bb%s" % sorted(kind_sw))
+    # the cursor-at-length exit is the one taken BEFORE anything was read in this call; once a physical read was attempted only its
+    # UnexpectedEof may end the log (a fragment that fails to parse and happens to end at the file length is damage, not a torn tail)
+    after_read = set()
+    for ps in phys_sites:
+        if ps.target is not None:
+            after_read |= b.reachable(ps.target)
     for (bb, line) in eof_blocks:
-        ok = (bool(e_eof_edges) and b.must_pass(bb, through_edges=e_eof_edges)) or (bool(e_len) and b.must_pass(bb, through_edges=e_len))
+        by_kind = bool(e_eof_edges) and b.must_pass(bb, through_edges=e_eof_edges)
+        by_len = bool(e_len) and b.must_pass(bb, through_edges=e_len) and bb not in after_read
+        ok = by_kind or by_len
         R.check(rule, READ_RECORD + "|eof-only-when-file-ends", ok, "%s:%s" % (b.file, line),
-                "end-of-log is reported only for ErrorKind::UnexpectedEof from the physical read or when the cursor reached the file length",
-                "kind-edges %d, len-edges %d" % (len(e_eof_edges), len(e_len)))
+                "end-of-log is reported only for ErrorKind::UnexpectedEof from the physical read, or - before anything was read - when the cursor reached the file length",
+                "kind-edges %d, len-edges %d, behind a physical read: %s" % (len(e_eof_edges), len(e_len), bb in after_read))
     # the UnexpectedEof edge must lead to the eof return (torn tail => open proceeds), not to an error
     pr = P.body(READ_PHYS)
     if pr is None:
@@ -4419,6 +4427,8 @@ def bundle_retention(P, R, L):
     R.once(pair12_file_level_pairs, P, R, L)
     R.once(grd30_base_level_cursor, P, R, L)
     from . import round12
+    R.clause("LVL-2", "is_base_level_for_key scans the levels from <compaction level> + 2 (the first level below the output level), however the expression is spelled")
+    R.once(round12.lvl2_base_level_scan_start, P, R, L)
     R.clause("EXP-1", "the level-0 input expansion compares files with the WIDENED range, restarts when a file widens the start, stores a wider end, and goes on to the next file only after both widening tests came out false")
     R.once(round12.exp1_level0_expansion_fixpoint, P, R, L)
     from . import blind
@@ -4494,6 +4504,8 @@ def bundle_readpath(P, R, L):
     R.once(round12.cache2_cache_identity, P, R, L)
     R.clause("BSRCH-2", "BlockIter::seek keeps the cursor (no store to current_index) only on the true edge of `current key == target`")
     R.once(round12.bsrch2_block_seek_shortcut, P, R, L)
+    R.clause("SEP-1", "the InternalKey-level separator / successor use the shortened user key only when it is shorter AND larger than the user key (otherwise the key itself): an index key never sorts below the last key of its block")
+    R.once(round12.sep1_shortened_key_is_guarded, P, R, L)
     R.clause("PAIR-8 (skip key)", "a backward-to-forward turn of the client iterator keeps the key that is being shown as the key to skip (it is not replaced by a key read from the inner iterator)")
     R.once(round12.pair8d_reversal_keeps_shown_key, P, R, L)
     R.clause("PAIR-18", "a reader that makes its capture of the immutable memtable depend on the has_immutable_memtable flag needs a flag that is lowered only after the slot was emptied (conjunction of two sites; either alone is accepted)")
@@ -4510,6 +4522,7 @@ def bundle_recovery(P, R, L):
     R.once(role4_counters, P, R, L)
     from . import round12 as _r12
     R.once(_r12.role4_last_record_wins, P, R, L)
+    R.once(_r12.role3_snapshot_levels, P, R, L)
     R.once(grd11_reopen_offset, P, R, L)
     R.once(grd12_reuse_only_complete_logs, P, R, L)
     R.once(grd12_cursor_counts_complete_reads, P, R, L)
@@ -4869,6 +4882,12 @@ def pair14_input_expansion(P, R, L, rule="PAIR-14"):
         lv = origins(b, c.args[1])
         plus = [int(x.get("val")) for o in lv if o.kind == "binop" and o.name.startswith("Add") and o.extra for x in o.extra[1]["rv"]["ops"] if x["k"] == "const" and (x.get("val") or "").isdigit()]
         src = range_sources(c.args[2])
+        # the level argument as `<compaction level> + k`, however it is spelled (`self.level + 1`, `self.output_level()`,
+        # `self.output_level() + 1` for the grandparents): only k == 1 is a parent-level query
+        from .round12 import _level_plus
+        lp = _level_plus(P, b, c.args[1])
+        if lp is not None:
+            plus = [lp[0]]
         if plus == [1]:
             n_parent += 1
             ok = src == {"get_key_range_for_files"}
